@@ -203,6 +203,15 @@ func (fv *FnVerifier) bytesEqualTerm(st *State, a, b, name string) string {
 	fv.q.assume(fmt.Sprintf("(=> %s (and (= (slen %s) (slen %s)) (forall ((%s %s)) (! (=> %s (= %s %s)) :pattern (%s) :pattern (%s)))))", eq, a, b, j, isort, rng, at(a, j), at(b, j), at(a, j), at(b, j)))
 	rngw := "(and " + m.cmp("<=", m.idx(0), w, true) + " " + m.cmp("<", w, "(slen "+a+")", true) + ")"
 	fv.q.assume(fmt.Sprintf("(=> (not %s) (or (not (= (slen %s) (slen %s))) (and %s (not (= %s %s)))))", eq, a, b, rngw, at(a, w), at(b, w)))
+	// bytes.Equal(a,b) <=> string(a) == string(b) (instance of Str extensionality that solvers do not derive themselves)
+	bsort := "Int"
+	if m.BV {
+		bsort = "(_ BitVec 8)"
+	}
+	fv.q.declareFun("str.of", []string{"(Array " + isort + " " + bsort + ")", isort, isort}, "Str")
+	sa := "(str.of (select " + h + " (sbase " + a + ")) (soff " + a + ") (slen " + a + "))"
+	sb := "(str.of (select " + h + " (sbase " + b + ")) (soff " + b + ") (slen " + b + "))"
+	fv.q.assume("(= " + eq + " (= " + sa + " " + sb + "))")
 	return eq
 }
 
